@@ -146,6 +146,7 @@ type Sim struct {
 	wake    chan struct{}
 	rootG   int64 // the scheduler goroutine: never parks, runs instrumented code natively
 	waiters map[any][]*Task
+	pendingWriters map[any]int
 	events  []*Event
 	evSeq   int
 	libSeq  map[int]int
@@ -266,7 +267,7 @@ func New(tape *Tape, cfg Config) *Sim {
 	s := &Sim{
 		Tape: tape, Cfg: cfg, Start: time.Now(),
 		tasks: map[int64]*Task{}, byID: map[string]*Task{},
-		wake: make(chan struct{}, 1), waiters: map[any][]*Task{},
+		wake: make(chan struct{}, 1), waiters: map[any][]*Task{}, pendingWriters: map[any]int{},
 		libSeq: map[int]int{}, Counters: map[string]int{},
 		SitesHit: map[int]int{}, Switches: map[[2]int]int{},
 		memState: map[uintptr]*memLoc{},
